@@ -205,7 +205,9 @@ func CmdCheck(args []string) int {
 			}
 		}
 	}
-	stats := e.SolveAll(all, SolveOpts{Timeout: timeout, Scratch: scratch, Workers: 16})
+	// thorough tier: every SMT "unsat" is re-checked by a second solver and every decision of the in-house
+	// interval prover by an SMT solver; a model from either is reported as a violation (disagreement)
+	stats := e.SolveAll(all, SolveOpts{Timeout: timeout, Scratch: scratch, Workers: 16, Cross: *tier == "thorough"})
 	// re-run unknowns alone (a query that timed out under 16-way load gets one more chance)
 	var retry []*Oblig
 	for _, o := range all {
@@ -214,7 +216,7 @@ func CmdCheck(args []string) int {
 		}
 	}
 	if len(retry) > 0 && len(retry) <= 24 {
-		e.SolveAll(retry, SolveOpts{Timeout: timeout * 2, Scratch: scratch, Workers: 4})
+		e.SolveAll(retry, SolveOpts{Timeout: timeout * 2, Scratch: scratch, Workers: 4, Cross: *tier == "thorough"})
 	}
 	known := loadKnown(filepath.Join(*verif, "known_findings.jsonl"))
 	knownBy := map[string]KnownFinding{}
@@ -294,6 +296,10 @@ func CmdCheck(args []string) int {
 		}
 		fmt.Printf("VIOLATION property=%s replay=%s%s\n", *prop, rp, suffix)
 	}
+	crossNote := ""
+	if *tier == "thorough" {
+		crossNote = "; thorough tier: every SMT unsat is re-run on cvc5 and every decision of the in-house interval prover on z3-new — a model from either fails the obligation (per_backend.cross-checked counts the confirmations, per_backend.disagreement the contradictions)"
+	}
 	wall := time.Since(t0).Seconds()
 	var solverSecs float64
 	for _, s := range stats.Secs {
@@ -328,7 +334,7 @@ func CmdCheck(args []string) int {
 			"discharged":                 discharged,
 			"obligations_trivial":        trivial,
 			"obligations_known_failing":  knownList,
-			"checker_cmd":                "z3-new -T:" + strconv.Itoa(timeout) + " <vc>.smt2  (then cvc5 / z3 4.8.12 raced on unknown); VCs generated by /verif/bin/dgv check -prop " + *prop,
+			"checker_cmd":                "z3-new -T:" + strconv.Itoa(timeout) + " <vc>.smt2  (then cvc5 / z3 4.8.12 raced on unknown); VCs generated by /verif/bin/dgv check -prop " + *prop + " -tier " + *tier + crossNote,
 			"trusted_base":               tb,
 			"functions_under_contract":   funcs,
 			"functions_tagged":           tagged,
